@@ -286,8 +286,11 @@ def run_case(rng, tier, idx):
         spt = rng.uniform(0.5, 1.5, size=(nx, ny))
         Farg = np.ascontiguousarray(np.asarray(p.F)[None, None, :, :] * spt[:, :, None, None])
     cbefore = cfull.copy()
+    okw, okind = gen.order_kwargs(rng, p, nx, ny)
+    c.tag('orders:' + okind)
+    c.desc['orders_given_as'] = okind
     try:
-        KG = p.calc_kG0(size=size, row0=row0, col0=row0, silent=True, c=cfull, nx=nx, ny=ny, Fnxny=Farg, NLgeom=NLgeom)
+        KG = p.calc_kG0(size=size, row0=row0, col0=row0, silent=True, c=cfull, Fnxny=Farg, NLgeom=NLgeom, **okw)
     except Exception as e:
         return c.reject('%s in calc_kG0(c): %s' % (type(e).__name__, str(e)[:100]))
     c.hit('calc_kG0(c)')
@@ -295,7 +298,7 @@ def run_case(rng, tier, idx):
     crep, rk = gen.vec_repr(rng, cfull, lists=False)
     c.tag('repr:' + rk)
     try:
-        KGr = p.calc_kG0(size=size, row0=row0, col0=row0, silent=True, c=crep, nx=nx, ny=ny, Fnxny=Farg, NLgeom=NLgeom)
+        KGr = p.calc_kG0(size=size, row0=row0, col0=row0, silent=True, c=crep, Fnxny=Farg, NLgeom=NLgeom, **okw)
     except Exception as e:
         return c.reject('%s for a %s state vector: %s' % (type(e).__name__, rk, str(e)[:100]))
     c.expect('kG0(c) independent of the memory layout of the state vector', np.array_equal(KGr.toarray(), KG.toarray()), rk)
@@ -330,7 +333,7 @@ def run_case(rng, tier, idx):
             sc = sc + 1e-6 * sc.max() + 1e-300
             c.judge('uniform membrane state reproduces the constant-load matrix', float((np.abs(blk - bc) / sc).max()), 1e-8)
     if mode == 'per_point_table':
-        K2 = p.calc_kG0(size=size, row0=row0, col0=row0, silent=True, c=cfull, nx=nx, ny=ny, Fnxny=None, NLgeom=NLgeom)
+        K2 = p.calc_kG0(size=size, row0=row0, col0=row0, silent=True, c=cfull, Fnxny=None, NLgeom=NLgeom, **okw)
         b2, _ = energy.block(K2, row0, size_p)
         c.expect('per-point table equal to the uniform laminate changes nothing', np.array_equal(b2, blk),
                  'max diff %r' % float(np.abs(b2 - blk).max()))
